@@ -144,6 +144,13 @@ class stabilizerEngine(quantumEngine):
 
         self.qubitReg.apply_Y(qubitNum)
 
+    def apply_S(self, qubitNum):
+        """
+        Applies a S gate to the qubits with number qubitNum.
+        """
+
+        self.qubitReg.apply_S(qubitNum)
+
     def apply_T(self, qubitNum):
         """
         Applies a T gate to the qubits with number qubitNum.
